@@ -110,6 +110,13 @@ def build_wsgi(spec, rec, trace):
             return gen()
         if shape == "lazy_iter_close":
             return _LazyIter(chunks, rec, spec.get("raise_at"), lambda: start_response(status, headers))
+        if shape == "write_callable":
+            # PEP 3333: start_response returns a write(body_data) callable (the "legacy" way of producing output, which may be mixed with
+            # a returned iterable: what is written comes first)
+            write = start_response(status, headers)
+            for c in chunks[:-1]:
+                write(c)
+            return list(chunks[-1:])
         start_response(status, headers)
         if shape == "raise_after":
             raise RuntimeError("wsgi failure after start_response")
